@@ -39,11 +39,64 @@ class Ctx:
         import traceback
         for f in fns:
             try:
+                gone = self._refers_to_gone(f)
+                if gone:
+                    raise CheckError("the reviewed function(s) %s that this rule refers to no longer exist (removed, or inlined into a caller): the rule "
+                                     "cannot tell their former code from the caller's own — cannot decide" % gone)
                 f(self)
             except CheckError as e:
                 self.errors.append("%s: %s" % (getattr(f, "__name__", "rule"), e))
             except Exception:
                 self.errors.append("%s: internal error: %s" % (getattr(f, "__name__", "rule"), traceback.format_exc()[-600:]))
+
+    def _refers_to_gone(self, f):
+        """names of reviewed workspace functions that disappeared from the tree (not merely renamed) and are mentioned in the source of rule `f` or of
+        the module-level helpers / imported rules it calls."""
+        gone = getattr(self.facts, "gone_fns", None)
+        if not gone:
+            return []
+        import inspect
+        import sys
+        try:
+            mod = sys.modules.get(f.__module__)
+            src = inspect.getsource(f)
+            seen = {f.__name__}
+            work = [(mod, src)]
+            text = src
+            depth = 0
+            while work and depth < 40:
+                depth += 1
+                m, sc = work.pop()
+                import re
+                for name in set(re.findall(r"\b([A-Za-z_][A-Za-z0-9_]*)\s*\(", sc)) | set(re.findall(r"\b(c\d\d)\.([A-Za-z_][A-Za-z0-9_]*)", sc) and []):
+                    g = getattr(m, name, None)
+                    if g is not None and inspect.isfunction(g) and g.__module__.startswith("rules") and g.__name__ not in seen:
+                        seen.add(g.__name__)
+                        s2 = inspect.getsource(g)
+                        text += s2
+                        work.append((sys.modules.get(g.__module__), s2))
+                for modname, name in re.findall(r"\b(c\d\d|census)\.([A-Za-z_][A-Za-z0-9_]*)", sc):
+                    try:
+                        import importlib
+                        m2 = sys.modules.get("rules." + modname) or importlib.import_module("rules." + modname)
+                    except Exception:
+                        m2 = None
+                    g = getattr(m2, name, None) if m2 else None
+                    if g is not None and inspect.isfunction(g) and (g.__module__, g.__name__) not in seen:
+                        seen.add((g.__module__, g.__name__))
+                        s2 = inspect.getsource(g)
+                        text += s2
+                        work.append((m2, s2))
+            # module-level string constants the rule may use (EXEC, ENV, W, ...) are expanded by looking for the last two path segments
+            out = []
+            for k in sorted(gone):
+                tail2 = "::".join(k.split("::")[-2:])
+                tail1 = k.split("::")[-1]
+                if tail2 in text or ('"::%s"' % tail1) in text or ("::%s\"" % tail1) in text:
+                    out.append(tail2)
+            return out
+        except Exception:
+            return []
 
     # ---- declaring rules / obligations
     def rule(self, rid, text):
